@@ -299,3 +299,46 @@ def ubox(x):
     if z3.is_string(x):
         return U.vstr(x)
     return x
+
+
+# ---- A-seqsets on the clause side --------------------------------------------------------------------------------------
+# prefix_set(seq, k) = the set of the first k elements (a Fold, i.e. defined by its two equations); seq_elems(seq) and
+# seq_distinct(seq) are the uninterpreted functions of lib.py.  The two link lemmas below are instances of theorems about
+# finite sequences (induction on the length); they are assumed, recorded under the tag A-seqsets.
+
+_STRSET = z3.ArraySort(z3.StringSort(), z3.BoolSort())
+prefix_set = Fold('prefix_set', _STRSET, init=lambda env: z3.K(z3.StringSort(), z3.BoolVal(False)),
+                  step=lambda env, acc, el, idx: z3.Store(acc, el, z3.BoolVal(True)))
+
+
+def elems(env, seq):
+    from .lib import seq_elems, seqset_empty_facts
+    ctx = env._it.ctx
+    seqset_empty_facts(ctx, seq.sort())
+    env._it.engine.assumed.add('A-seqsets: element set / distinctness of sequences as uninterpreted functions with lemma '
+                               'instances at append, remove, membership and iteration')
+    key = ('elems-link', ctx.keep(seq))
+    if key not in ctx.axiom_tags:
+        ctx.axiom_tags.add(key)
+        # the set of all elements is the prefix set at full length
+        ctx.assume(prefix_set(env, seq, z3.Length(seq)) == seq_elems(seq), heavy=True)
+    return seq_elems(seq)
+
+
+def distinct(env, seq):
+    from .lib import seq_distinct, seqset_empty_facts
+    seqset_empty_facts(env._it.ctx, seq.sort())
+    return seq_distinct(seq)
+
+
+def distinct_at(env, seq, i):
+    """instance: in a pairwise distinct sequence the element at i is not among the first i"""
+    from .lib import seq_distinct
+    return z3.Implies(z3.And(seq_distinct(seq), i >= 0, i < z3.Length(seq)),
+                      z3.Not(z3.Select(prefix_set(env, seq, i), seq[i])))
+
+
+def member_at(env, seq, i):
+    """instance: the element at a valid index belongs to the element set"""
+    from .lib import seq_elems
+    return z3.Implies(z3.And(i >= 0, i < z3.Length(seq)), z3.Select(seq_elems(seq), seq[i]))
